@@ -440,8 +440,8 @@ func sections(appState []byte) (map[string]json.RawMessage, error) {
 }
 
 // checkC08 performs the export/import round trip and switches the world to the new chain.
-func (w *World) checkC08(st []byte) error {
-	st2, err := w.C.Export()
+func (w *World) checkC08(st []byte, zero bool) error {
+	st2, err := w.C.ExportMode(zero)
 	if err != nil {
 		return vio("C08", "second export failed: %v", err)
 	}
@@ -488,7 +488,7 @@ func (w *World) checkC08(st []byte) error {
 			return vio("C08", "query %q (%s) answers differently after export/import:\n before %q\n after  %q", probes[i].Name, probes[i].Path, before[i], after[i])
 		}
 	}
-	st3, err := nc.Export()
+	st3, err := nc.ExportMode(zero)
 	if err != nil {
 		return vio("C08", "export of the imported chain failed: %v", err)
 	}
